@@ -52,7 +52,7 @@ pub open spec fn inv(n: int, d: int) -> bool {
 //@item const EVENT_NUMBER_EPOCH_SIZE
 
 impl EventsInner {
-//@fn EventsInner::next_event_number ret=r twin=c12_events_next_event_number_fresh
+//@fn EventsInner::next_event_number ret=r
 //@+ requires
 //@+     inv(old(self).next_event_number as int, old(persist).durable()),
 //@+     old(self).next_event_number < 0xffff_ffff_ffff_0000,   // horizon: 2^64 events are out of scope (stated, not hidden)
